@@ -295,6 +295,10 @@ SCENARIOS = {
     # a query cancelled in flight must give back whatever it holds: the next REQ (only ONE query slot configured) is still answered
     "req_after_cancelled_query": ([("c", ["REQ", "a", {"kinds": [1]}]), ("c", ["CLOSE", "a"]), ("c", ["REQ", "b", {"kinds": [2]}]), ("d", ["REQ", "z", {"kinds": [1]}])], (), ()),
     "req_after_replaced_query": ([("c", ["REQ", "a", {"kinds": [1]}]), ("c", ["REQ", "a", {"kinds": [2]}]), ("c", ["REQ", "b", {"kinds": [1]}])], (), ()),
+    # the CLOSE / replacing REQ reaches the relay while another connection's matching EVENT is being stored and fanned out: it may be
+    # processed between the creation of the per-subscription notify tasks and their execution
+    "close_during_fanout": ([("c", ["REQ", "a", {"kinds": [1]}]), ("d", ["EVENT", E1]), ("c", ["CLOSE", "a"]), ("d", ["EVENT", E3])], (), ()),
+    "replace_during_fanout": ([("c", ["REQ", "a", {"kinds": [1]}]), ("d", ["EVENT", E1]), ("c", ["REQ", "a", {"kinds": [2]}]), ("d", ["EVENT", E3])], (), ()),
     "two_connections": ([("c", ["REQ", "a", {"kinds": [1]}]), ("d", ["REQ", "a", {"kinds": [1]}]), ("c", ["CLOSE", "a"]), ("d", ["EVENT", E1])], (), ()),
 }
 
